@@ -2,6 +2,7 @@ import Mathlib.Algebra.Order.Field.Rat
 import TapkeeVerif.Proofs.TsneBasic
 import TapkeeVerif.Proofs.TsneVp
 import TapkeeVerif.Proofs.TsneCsrVal
+import TapkeeVerif.Model.TsneRun
 import TapkeeVerif.Proofs.QuadTreeForces
 /-!
 # C17 — t-SNE: calibrated similarities from true neighbours, true KL gradient
@@ -246,6 +247,58 @@ theorem exactGradientSpec_apply {N D : Nat} (P : Mat N N K) (Y : Mat N D K) (n :
    DESIGN §9); `exactGradient_is_grad_KL_partial` = `gradient_identity` + `exactGradientSpec_apply`, and the check runs a
    finite-difference test of the implementation against KL evaluated with rational log enclosures (a test). -/
 end
+
+/-! ### `TSNE::run`: the generated statement list against the specification
+
+`Gen/TsneRun.lean` and `Gen/TsneOps.lean` are regenerated from the body of `run` (token-level) on every check run.  The
+theorems below are the obligations attached to every generated constant: what the property text (`floor(3·perplexity)`
+neighbours, a *symmetrised* joint distribution that *sums to one*, a centred map) and the schedule of Barnes–Hut-SNE
+(van der Maaten 2014, §5: early exaggeration 12 for the first 250 iterations, momentum 0.5 → 0.8 at iteration 250,
+step size 200, 1000 iterations; gains +0.2 / ×0.8, floor 0.01 — Jacobs 1988) prescribe.  A source edit that changes any
+of them stops the corresponding theorem from compiling.  The model of `run` (`Model/TsneRun.lean`) uses the generated
+values, and the correspondence run compares it with the real `run` through the error values `run` logs. -/
+
+/-- the K-NN branch uses `K = floor(3·perplexity)` neighbours and asks the tree for `K + 1` results (the query itself
+    comes back first) -/
+theorem run_neighbour_count :
+    Gen.TsneRun.kMult = (3, 1) ∧ Gen.TsneOps.kMult = 3 ∧ Gen.TsneOps.kPlus = 1 := by decide
+
+/-- both branches symmetrise and normalise: the dense loop body is `P[n][m] += P[m][n]; P[m][n] = P[n][m]` over `n < m`
+    followed by `P /= ΣP`; the sparse branch calls `symmetrizeMatrix` and divides by `Σ val_P`; halves in the CSR routine -/
+theorem run_joint_distribution :
+    Gen.TsneRun.denseSymmetriseBody = true ∧ Gen.TsneRun.denseNormalise = true ∧
+    Gen.TsneRun.sparseNormalise = true ∧ Gen.TsneOps.symDivisor = 2 := by decide
+
+/-- early exaggeration: multiplied by 12 before the loop, divided by the same factor exactly when `iter == 250` -/
+theorem run_exaggeration :
+    Gen.TsneRun.exaggeration = (12, 1) ∧ Gen.TsneRun.unExaggeration = Gen.TsneRun.exaggeration ∧
+    Gen.TsneRun.stopLyingSimple = true ∧ Gen.TsneRun.stopLyingIter = 250 := by decide
+
+/-- the learning schedule -/
+theorem run_schedule :
+    Gen.TsneRun.maxIter = (1000, 1) ∧ Gen.TsneRun.momentum = (1, 2) ∧ Gen.TsneRun.finalMomentum = (4, 5) ∧
+    Gen.TsneRun.momSwitchSimple = true ∧ Gen.TsneRun.momSwitchIter = 250 ∧ Gen.TsneRun.eta = (200, 1) ∧
+    Gen.TsneRun.gainAdd = (1, 5) ∧ Gen.TsneRun.gainMul = (4, 5) ∧ Gen.TsneRun.gainMin = (1, 100) ∧
+    Gen.TsneRun.initScale = (1, 10000) := by decide
+
+/-- the stages of `run`, in source order: input stage (centre, normalise, similarities, symmetrise, normalise —
+    dense and sparse —, exaggerate, initialise), then per iteration gradient → gains → floor → velocity → position →
+    centring → end of exaggeration → momentum switch -/
+theorem run_stage_order :
+    Gen.TsneRun.stages = ["zeroMeanX", "maxNormalise", "perplexityDense", "symmetriseDense", "normaliseDense",
+      "perplexityKnn", "symmetriseCsr", "normaliseCsr", "exaggerate", "initY", "loop", "gradient", "gains",
+      "gainsFloor", "velocity", "position", "zeroMeanY", "stopLying", "momentumSwitch"] := by decide
+
+/-- the quadtree of the Barnes–Hut branch is two-dimensional with leaf capacity one (what `Model/QuadTree.lean` models) -/
+theorem run_quadtree_constants : Gen.TsneOps.qtNoDims = 2 ∧ Gen.TsneOps.qtNodeCapacity = 1 := by decide
+
+/-- with these constants the model's `run` glue is the proved pieces: the dense joint distribution is
+    `normalise (symDense P)` (symmetric, sums to one: `P_dense_symm`, `P_dense_sum_one`) -/
+theorem jointDenseAsWritten_eq {K : Type} [Field K] {N : Nat} (P : Mat N N K) :
+    jointDenseAsWritten P = jointDense P := by
+  have h1 : Gen.TsneRun.denseSymmetriseBody = true := by decide
+  have h2 : Gen.TsneRun.denseNormalise = true := by decide
+  simp [jointDenseAsWritten, jointDense, h1, h2]
 
 /-! ### non-vacuity of the bisection hypotheses: `H β = 1 − β` is strictly decreasing and meets `log perplexity = −1` at `β = 2` -/
 example : StrictAnti (fun b : Rat => 1 - b) := fun a b h => by simp only; linarith
